@@ -123,7 +123,8 @@ def scen_split(src, cond, order, abandon, src_kind, cond_kind):
             devs.append('predicate-not-called-for-every-element')
         elif calls != src[:len(calls)]:
             devs.append('predicate-called-with-wrong-argument')
-    LAST_INFO = {'src': list(src), 'cond': list(cond), 'order': list(order), 'abandon': abandon,
+    if not vfw.prelude.tracing():
+        LAST_INFO = {'src': list(src), 'cond': list(cond), 'order': list(order), 'abandon': abandon,
                  'got_true': got[True], 'got_false': got[False], 'expected_true': exp[True],
                  'expected_false': exp[False], 'pulls': source.pulls, 'predicate_calls': len(calls)}
     return devs
@@ -155,7 +156,8 @@ def scen_exhaust(src, kind):
         devs.append('exhaust-returned-value')
     if seen != src if kind != 'map' else len(seen) != len(src):
         devs.append('exhaust-did-not-drain')
-    LAST_INFO = {'src': list(src), 'seen': len(seen)}
+    if not vfw.prelude.tracing():
+        LAST_INFO = {'src': list(src), 'seen': len(seen)}
     return devs
 
 
